@@ -6,6 +6,7 @@ import (
 	"encoding/binary"
 	"fmt"
 	"net"
+	"path/filepath"
 	"time"
 
 	"github.com/bbockelm/cedar/security"
@@ -184,7 +185,9 @@ func parse3(fr []frame) msg3 {
 type memCreds map[string][]byte
 
 func (m memCreds) ReadCredential(path string) ([]byte, error) {
-	if b, ok := m[path]; ok {
+	// resolve like a filesystem would, so that a key id such as "../keys/k1" reaches a
+	// real key if the implementation ever lets it through
+	if b, ok := m[filepath.Clean(path)]; ok {
 		return append([]byte{}, b...), nil
 	}
 	return nil, fmt.Errorf("no such credential %s", path)
